@@ -162,3 +162,8 @@ func (a args) int(k string, def int) int {
 	}
 	return def
 }
+
+func base64Decode(s string) (string, error) {
+	b, err := base64.StdEncoding.DecodeString(s)
+	return string(b), err
+}
